@@ -72,6 +72,9 @@ def check_doc(name, din, dout, c, violations, opts):
                 w = wellformed(it, vals)
                 if w:
                     violations.append({"kind": "ill-formed-item", "input": name, "options": opts, "what": "%s in %s %s: %s" % (json.dumps(it), name, path, w)})
+            if len(x) > 60 or len(y) > 60:
+                c["equiv:not-attempted-long-block"] += 1      # terms are trees: the validator is kept to blocks of moderate length here (C01 owns the verdict)
+                continue
             try:
                 reqs.append(("EQUIV\t%s\t%s" % (" ".join(map(docrun.item_token, x)), " ".join(map(docrun.item_token, y))), (name, path, x, y)))
             except vocab.Unsupported:
